@@ -36,7 +36,7 @@ def run(ctx):
         if t[0] == "arr":
             sup = [x[2] for x in t[1] if x[0] == "enum"]
     ctx.check("version-scan", "supported-list", sup == ["RfcDraft13"], "SUPPORTED_VERSIONS = [RfcDraft13]", "SUPPORTED_VERSIONS evaluates to %s" % sup, ctx.loc(fn))
-    chunks = [(bb, ev.call_args(bb)) for bb, t in fn.calls() if callee_name(t["fn"].get("path", "")) == "chunks"]
+    chunks = [(bb, ev.call_args(bb)) for bb, t in fn.calls() if callee_name(t["fn"].get("path", "")) in ("chunks", "chunks_exact")]
     takes = [(bb, ev.call_args(bb)) for bb, t in fn.calls() if callee_name(t["fn"].get("path", "")) == "take"]
     wire_w = len(sp["versions"]["RfcDraft13"]["wire"])
     okc = len(chunks) == 1 and chunks[0][1][1] == ("int", wire_w)
@@ -46,7 +46,7 @@ def run(ctx):
               "version scan splits %s into chunks of %s" % (fmt(chunks[0][1][0]) if chunks else "?", fmt(chunks[0][1][1]) if chunks else "?"), ctx.loc(fn))
     if takes:
         lim = takes[0][1][1]
-        okt = lim[0] == "int" and lim[1] >= 4 and is_call(takes[0][1][0]) and callee_name(takes[0][1][0][1]) == "chunks"
+        okt = lim[0] == "int" and lim[1] >= 4 and is_call(takes[0][1][0]) and callee_name(takes[0][1][0][1]) in ("chunks", "chunks_exact")
         ctx.check("version-scan", "examines-first-four", okt, "at least the first four entries are examined (limit %s)" % fmt(lim),
                   "only the first %s version entries are examined" % fmt(lim), fn.loc(takes[0][0]))
     else:
@@ -68,7 +68,7 @@ def run(ctx):
             if r[0] == "Eq" and r[1][0] != "discr":
                 sides = [W.expand(r[1]), W.expand(r[2])]
                 wb = [s for s in sides if is_call(s, "Version::wire_bytes")]
-                ch = [s for s in sides if iter_elem(W, s) is not None or values.contains(s, lambda q: is_call(q) and callee_name(q[1]) == "chunks")]
+                ch = [s for s in sides if iter_elem(W, s) is not None or values.contains(s, lambda q: is_call(q) and callee_name(q[1]) in ("chunks", "chunks_exact"))]
                 if wb and ch and W.expand(wb[0][2][0]) == x:
                     okr = True
         ctx.check("version-scan", "match-is-wire-equality", okr, "Some(v) only where v.wire_bytes() == the request's entry", "Some(%s) is returned without the wire comparison" % fmt(x), fn.loc(bb))
